@@ -270,7 +270,7 @@ pub fn nth(l: &Layout, mut k: usize) -> (Mut, &'static str) {
     let sec = sections(l);
     let nf = l.fields.len();
     if k < sec.s[0] {
-        return (Mut::SetField { fi: k / FIELD_SLOTS, slot: k % FIELD_SLOTS }, "len-field");
+        return (Mut::SetField { fi: k / FIELD_SLOTS, slot: k % FIELD_SLOTS }, "mut:len-field");
     }
     k -= sec.s[0];
     if k < sec.s[1] {
@@ -284,7 +284,7 @@ pub fn nth(l: &Layout, mut k: usize) -> (Mut, &'static str) {
             f1 += 1;
         }
         let f2 = f1 + 1 + pi;
-        return (Mut::Pair { f1, s1: pair_slot(sl / PAIR_SLOTS), f2, s2: pair_slot(sl % PAIR_SLOTS) }, "len-pair");
+        return (Mut::Pair { f1, s1: pair_slot(sl / PAIR_SLOTS), f2, s2: pair_slot(sl % PAIR_SLOTS) }, "mut:len-pair");
     }
     k -= sec.s[1];
     if k < sec.s[2] {
@@ -292,11 +292,11 @@ pub fn nth(l: &Layout, mut k: usize) -> (Mut, &'static str) {
         let n = l.len.min(512);
         let i = k / 2;
         let at = if l.len <= 512 { i } else { i * l.len / n };
-        return (Mut::Trunc { at, fix: k % 2 == 0 }, "truncate");
+        return (Mut::Trunc { at, fix: k % 2 == 0 }, "mut:truncate");
     }
     k -= sec.s[2];
     if k < sec.s[3] {
-        return (Mut::SetByte { off: l.type_bytes[k / 256], val: (k % 256) as u8 }, "type-sweep");
+        return (Mut::SetByte { off: l.type_bytes[k / 256], val: (k % 256) as u8 }, "mut:type-sweep");
     }
     k -= sec.s[3];
     if k < sec.s[4] {
@@ -304,30 +304,30 @@ pub fn nth(l: &Layout, mut k: usize) -> (Mut, &'static str) {
         let off = region_byte(l, k / nv, REGION_SPAN);
         let j = k % nv;
         if j < REGION_VALUES.len() {
-            return (Mut::SetByte { off, val: REGION_VALUES[j] }, "region-boundary");
+            return (Mut::SetByte { off, val: REGION_VALUES[j] }, "mut:region-boundary");
         }
-        return (Mut::RelByte { off, rel: j - REGION_VALUES.len() }, "region-boundary");
+        return (Mut::RelByte { off, rel: j - REGION_VALUES.len() }, "mut:region-boundary");
     }
     k -= sec.s[4];
     if k < sec.s[5] {
-        return (Mut::SetByte { off: region_byte(l, k / 256, REGION_FULL), val: (k % 256) as u8 }, "region-lead-sweep");
+        return (Mut::SetByte { off: region_byte(l, k / 256, REGION_FULL), val: (k % 256) as u8 }, "mut:region-lead-sweep");
     }
     k -= sec.s[5];
     if k < sec.s[6] {
-        return (Mut::Attr { i: k / 5, op: k % 5 }, "attr-dup-reorder");
+        return (Mut::Attr { i: k / 5, op: k % 5 }, "mut:attr-dup-reorder");
     }
     k -= sec.s[6];
     if k < sec.s[7] {
         let nw = WINDOWS.len();
         let (w, first, fill) = WINDOWS[k % nw];
-        return (Mut::Window { off: region_byte(l, k / nw, REGION_SPAN), w, first, fill }, "region-window");
+        return (Mut::Window { off: region_byte(l, k / nw, REGION_SPAN), w, first, fill }, "mut:region-window");
     }
     k -= sec.s[7];
     if k < EXTENDS.len() {
-        return (Mut::Extend { n: EXTENDS[k].0, fill: EXTENDS[k].1 }, "extend");
+        return (Mut::Extend { n: EXTENDS[k].0, fill: EXTENDS[k].1 }, "mut:extend");
     }
     k -= EXTENDS.len();
-    (Mut::PadTo { len: PADS[k % PADS.len()] }, "pad-to")
+    (Mut::PadTo { len: PADS[k % PADS.len()] }, "mut:pad-to")
 }
 
 fn put(b: &mut [u8], off: usize, width: usize, v: usize) {
